@@ -49,6 +49,16 @@ let check (case : Sexp.t) : unit =
                  | _ -> true) b.nodes in
            let ok6 = points_check ~id ~tag:"evaluate" ta pts in
            if ptree_eq ta spec then bump "mirror_agree" else bump "mirror_mismatch";
+           (* the sweep as coded (reversed breadth-first index list, local merges; Pwl/ReduceSweep.v) on the dumped arena:
+              must reproduce the implementation's arena exactly -- indices, flags, functions and cached states *)
+           (let ab = arena_of b and aa = arena_of a in
+            let rt t = nat_of_int (match t.root with Some r -> r | None -> 0) in
+            match cabs (nat_of_int (List.length ab + 1)) ab (rt b), cabs (nat_of_int (List.length aa + 1)) aa (rt a) with
+            | Some cb, Some ca ->
+              let swept = sweep (c_idx_of cb) (List.rev (bfs_order (cheight cb) cb)) cb in
+              if ctree_eqb swept ca then bump "sweep_model_agree"
+              else (bump "sweep_model_mismatch"; result id "MIRROR" "sweep-model" "the coded sweep of the model differs from the implementation's arena")
+            | _ -> bump "sweep_model_not_a_tree");
            if ok1 && ok2 && ok3 && ok4 && ok5 && ok6 then result id "OK" "reduce" ""
        end)
   | _ -> result "?" "ERR" "parse" "unrecognised case"
